@@ -3,6 +3,7 @@ package main
 // C16 — line markers are transparent and name the right source line.
 
 import (
+	"strconv"
 	"go/token"
 	"fmt"
 	"go/types"
@@ -951,6 +952,26 @@ func c16c(c *Ctx) {
 							for _, lf := range c.originLeaves(fn, fv) {
 								t := lf.term
 								okT := strings.HasPrefix(t, "$0.curToken") || strings.HasPrefix(t, "$0.peek") || regexpMust(`^\$[1-9]\d*`).MatchString(t) || strings.HasPrefix(t, "mu(") || strings.HasPrefix(t, "new#") || strings.Contains(t, ".Token") || strings.Contains(t, "Token")
+								if !okT && fn.Signature.Recv() == nil && regexpMust(`^\$\d+$`).MatchString(t) {
+									okT = true // a plain function's first parameter
+								}
+								// handed in by the caller: then every caller hands in a token of the window
+								if m := regexpMust(`^\$(\d+)$`).FindStringSubmatch(t); okT && m != nil {
+									idx, _ := strconv.Atoi(m[1])
+									for _, ci := range c.W.callsTo(fn) {
+										caller := ci.Parent()
+										if isTestFunc(c.W, caller) || idx >= len(ci.Common().Args) {
+											continue
+										}
+										for _, lf2 := range c.originLeaves(caller, ci.Common().Args[idx]) {
+											t2 := lf2.term
+											if !(strings.HasPrefix(t2, "$0.curToken") || strings.HasPrefix(t2, "$0.peek") || regexpMust(`^\$\d+`).MatchString(t2) || strings.HasPrefix(t2, "mu(") || strings.Contains(t2, "Token")) {
+												okT = false
+												t = t + " <- " + t2 + " in " + caller.Name()
+											}
+										}
+									}
+								}
 								if !okT {
 									notWindow = append(notWindow, k.typ+"."+k.field+" = "+pretty(t)+" at "+c.W.Pos(a.Pos()))
 								}
